@@ -36,6 +36,9 @@ pub enum Readiness {
     /// a readiness error. The call must still resolve - with one of its attempts' results or
     /// with an error - and must not call the instance whose readiness failed.
     ErrorOnFurtherAttempt,
+    /// call-multiplying modes only: the instance polled for the further attempt answers
+    /// Pending twice before it is ready; the layer has to wait for it
+    PendingOnFurtherAttempt,
 }
 
 fn box_err_to_inner(e: tower::BoxError) -> InnerErr {
@@ -180,11 +183,11 @@ fn single_grid(ctx: &mut Ctx, tier: Tier) {
         let modes: Vec<Mode> = if m.can_multiply() { vec![Mode::Plain, Mode::Multiply, Mode::MultiplyAlt, Mode::Extreme] } else { vec![Mode::Plain, Mode::Extreme] };
         for mode in modes {
             for kind in [Kind::Strict, Kind::Buffer, Kind::ConcurrencyLimit] {
-                for readiness in [Readiness::Ready, Readiness::PendingTwice, Readiness::ErrorOnSecond, Readiness::ErrorOnFurtherAttempt] {
+                for readiness in [Readiness::Ready, Readiness::PendingTwice, Readiness::ErrorOnSecond, Readiness::ErrorOnFurtherAttempt, Readiness::PendingOnFurtherAttempt] {
                     if matches!(readiness, Readiness::ErrorOnSecond | Readiness::ErrorOnFurtherAttempt) && kind != Kind::Strict {
                         continue; // Buffer turns a readiness error into a closed worker
                     }
-                    if readiness == Readiness::ErrorOnFurtherAttempt && !matches!(mode, Mode::Multiply | Mode::MultiplyAlt) {
+                    if matches!(readiness, Readiness::ErrorOnFurtherAttempt | Readiness::PendingOnFurtherAttempt) && !matches!(mode, Mode::Multiply | Mode::MultiplyAlt) {
                         continue;
                     }
                     for outcome_code in 0..tier.pick(4u8, 8) {
@@ -227,6 +230,13 @@ fn single_grid(ctx: &mut Ctx, tier: Tier) {
                                         if i == 1 {
                                             g.ready_script.push_back(ReadyAns::Ready);
                                             g.ready_script.push_back(ReadyAns::Err(5));
+                                        }
+                                    }
+                                    Readiness::PendingOnFurtherAttempt => {
+                                        if i == 1 {
+                                            g.ready_script.push_back(ReadyAns::Ready);
+                                            g.ready_script.push_back(ReadyAns::Pending);
+                                            g.ready_script.push_back(ReadyAns::Pending);
                                         }
                                     }
                                 }
